@@ -135,13 +135,27 @@ def gen_cases(tier, seed):
         for d in ANCHOR_DATES:
             for ref in (datetime(d.year, d.month, d.day, 0, 0), datetime(d.year, d.month, d.day, 23, 59, 59), datetime(d.year, d.month, d.day, 0, 1)):
                 cases.append({"n": "midnight/latent", "f": w, "h": 0, "m": 0, "lat": 1, "ts": C.iso(ref)})
+    # four digits that are also a year: the library's documented heuristic prefers the year reading only when the number is
+    # the reference year or the year three months ahead; everywhere else 'HHMM' is a clock notation like the others, so the
+    # blanket 'also-a-year' exclusion of the static family is narrowed here to exactly those reference times
+    for y in list(range(1900, 1960, 5)) + list(range(2000, 2030, 5)):
+        h, m = divmod(y, 100)
+        refs = [REF0, datetime(2024, 3, 10, 9, 0)]
+        for Y in (y - 1, y, y + 1):
+            refs += [datetime(Y, 1, 1, 0, 0), datetime(Y, 3, 10, 9, 0), datetime(Y, 9, 30, 23, 59), datetime(Y, 10, 1, 0, 0),
+                     datetime(Y, 12, 31, 23, 59)]
+        for ref in refs:
+            y3 = ref.year + (1 if ref.month >= 10 else 0)       # the year three months after the reference time
+            x = "also-a-year" if y in (ref.year, y3) else None
+            for lat in (0, 1):
+                cases.append({"n": "HHMM/yearlike", "f": "%04d" % y, "h": h, "m": m, "ho": False, "lat": lat, "ts": C.iso(ref), "x": x})
     r.shuffle(cases)
     return cases
 
 
 def run_case(case, ctx):
     ts = C.parse_ts(case["ts"])
-    key = "%s|%s|%d|%s" % (case["n"], case["f"], case["lat"], case["ts"] if case["lat"] else "-")
+    key = "%s|%s|%d|%s" % (case["n"], case["f"], case["lat"], case["ts"] if (case["lat"] or case["n"] == "HHMM/yearlike") else "-")
     cls = case["n"] + ("/latent" if case["lat"] else "")
     if case.get("x"):
         return {"st": "excl", "sig": "%s:%s" % (case["n"].split("/")[0], case["x"]), "key": key, "cls": cls}
